@@ -344,7 +344,7 @@ package setec
 // construction (the store is not shared yet) and in helpers whose callers hold the lock.
 //@ guarded [C12 entries-accessed-under-the-store-lock] cachedSecret: Secret, LastAccess, Declared by active.Mutex of Store except NewStore, initializeActive, isActiveSetValid, flushCacheLocked, hasExpired, lastAccessTime
 //@ nocall [C05,C11,C13,C18 cache-written-only-atomically] in client/setec: os.WriteFile, os.Create, os.OpenFile, os.Rename, os.Truncate, (*os.File).Write, (*os.File).WriteString
-//@ nocall [C11,C16 coalescing-never-abandoned] in client/setec: (*golang.org/x/sync/singleflight.Group).Forget
+//@ nocall [C11,C12,C16 coalescing-never-abandoned] in client/setec: (*golang.org/x/sync/singleflight.Group).Forget
 //@ callers [C16 lookup-closure-only-via-do] (*client/setec.Store).lookupSecretInternal$1 only-from (*client/setec.Store).lookupSecretInternal (value)
 // A-interval: a poll interval of at least 5ns (below that 2*interval/10 is 0 and rand.Intn panics)
 //@ func (*Store).run(s, ctx, interval, done)
